@@ -45,7 +45,7 @@ func init() {
 		Run:          Run,
 		MaxSteps:     120000,
 		YieldFiles:   []string{"dns/dns.go"},
-		QuickRuns:    30000,
+		QuickRuns:    20000,
 		ThoroughSecs: 600,
 		Rule: "one run = one resolver configuration (cache capacity, UDP/TCP/both, server address family, network loss/dup/delay knobs) and one " +
 			"history of 1..12 sequential lookups over 1..capacity+2 names, each lookup with its own upstream script (per query type a list of UDP " +
@@ -57,7 +57,9 @@ func init() {
 		Stub: []string{"upstream DNS server (harness, scripted)", "kernel UDP/TCP (simnet)", "tfo-go (simtfo)", "clock (synctest)", "logger (no-op)"},
 		Assumptions: []string{
 			"the failure caching time is the 30 s stated in the doc comment of dns.rcodeFailureCachingDuration; a negative answer without SOA is not cacheable",
-			"where two responses of one lookup suggest different lifetimes the oracle only enforces the largest reading (minimum TTL over address records; for address-less results the larger of the negative/failure times)",
+			"where the responses of one lookup suggest different lifetimes the oracle only enforces the largest reading: minimum TTL over the address records of the result; for address-less results the larger of the negative (SOA TTL) / failure (30 s) times and of the TTLs in a truncated UDP response to the same lookup; refetching early is never a violation",
+			"acceptable = from the configured server, id 4/6, QR=1, answer section parseable, not TC over UDP; RA=0, unknown rcodes, broken trailing sections and TC over TCP may or may not be accepted by a resolver (both readings pass); wrong source, foreign id, QR=0, unparsable answers and TC over UDP must never contribute",
+			"success is demanded only when every scripted UDP reaction of the lookup is a proper response and no datagram loss is configured, or when the first TCP connection answers every query properly; retries beyond that are not demanded",
 			"datagram corruption is not injected (DNS over UDP has no integrity protection, a flipped address bit is indistinguishable from an answer)",
 			"lookups are sequential (the statement quantifies over inputs, faults and histories, not schedules)",
 		},
